@@ -9,6 +9,8 @@ package main
 //	un <ok|rpc|go> <rid|->                  unary call (rid: X-Request-ID header sent)
 //	px <n> <errat|-1> <cancelafter|-1>      producer stream, one batch per response
 //	ex <turns> <errat|-1>                   exchange stream
+//	fault <b<k>|w<i>z|w<i>h|w<i>l|->        from now on the connection under the server accepts only part of each
+//	                                        response body, then fails the write (see c38FaultWriter); - = healthy again
 
 import (
 	"bytes"
@@ -144,6 +146,68 @@ type c38HTTP struct {
 	sealed   map[int]string // label -> stream id of its first record
 	line     string
 	lines    int
+	fault    string // connection fault applied to every response until changed ("" = none)
+	cut      bool   // the last response was cut by the fault
+}
+
+// c38FaultWriter is the connection under the real server: it accepts response-body bytes until the
+// fault strikes, then reports a short write with an error (peer disconnect / broken pipe mid-body)
+// and refuses everything afterwards. What it accepted is what crossed the wire.
+//
+//	b<k>    the connection accepts k body bytes in total
+//	w<i>z   the i-th Write call (0-based) is refused entirely      (k = 0 of that write)
+//	w<i>h   the i-th Write call is cut in the middle
+//	w<i>l   the i-th Write call loses its last byte
+type c38FaultWriter struct {
+	rec      *httptest.ResponseRecorder
+	spec     string
+	writes   int
+	dead     bool
+	accepted int64
+}
+
+var errC38Pipe = errors.New("write: broken pipe")
+
+func (w *c38FaultWriter) Header() http.Header  { return w.rec.Header() }
+func (w *c38FaultWriter) WriteHeader(code int) { w.rec.WriteHeader(code) }
+func (w *c38FaultWriter) Flush()               { w.rec.Flush() }
+
+func (w *c38FaultWriter) Write(b []byte) (int, error) {
+	if w.dead {
+		return 0, errC38Pipe
+	}
+	idx := w.writes
+	w.writes++
+	allow := len(b)
+	switch {
+	case w.spec == "":
+	case w.spec[0] == 'b':
+		budget, _ := strconv.ParseInt(w.spec[1:], 10, 64)
+		if left := budget - w.accepted; left < int64(allow) {
+			allow = int(max(left, 0))
+		}
+	case w.spec[0] == 'w' && len(w.spec) >= 3:
+		i, _ := strconv.Atoi(w.spec[1 : len(w.spec)-1])
+		if i == idx {
+			switch w.spec[len(w.spec)-1] {
+			case 'z':
+				allow = 0
+			case 'h':
+				allow = len(b) / 2
+			case 'l':
+				allow = max(len(b)-1, 0)
+			}
+		}
+	}
+	if allow > 0 {
+		w.rec.Write(b[:allow])
+		w.accepted += int64(allow)
+	}
+	if allow < len(b) {
+		w.dead = true
+		return allow, errC38Pipe
+	}
+	return allow, nil
 }
 
 func c38NewHTTP(c *Case, l string, f []string) *c38HTTP {
@@ -275,9 +339,18 @@ func (h *c38HTTP) RoundTrip(req *http.Request) (*http.Response, error) {
 	h.raised = false
 	redModel, redKind, _ := c38InstallRedactor(h.redTok, func() string { return "-" })
 	rec := httptest.NewRecorder()
-	h.hs.ServeHTTP(rec, sreq)
+	fw := &c38FaultWriter{rec: rec, spec: h.fault}
+	h.hs.ServeHTTP(fw, sreq)
 	vgirpc.SetClaimRedactor(nil)
+	// the reference: the body bytes the connection really accepted
 	respLen := int64(rec.Body.Len())
+	if fw.accepted != respLen {
+		panic("c38: fault writer accounting is inconsistent")
+	}
+	h.cut = fw.dead
+	if fw.dead {
+		h.c.Stat("http-response-cut")
+	}
 	caps := h.tee.caps[capsBefore:]
 	lines := h.buf.chunks[linesBefore:]
 	path := req.URL.Path
@@ -391,7 +464,11 @@ func (h *c38HTTP) compare(cp c38Cap, raw []byte, path string, isInit, isCont boo
 			c.Oracle("bytes-mismatch", fmt.Sprintf("%s %s: request_bytes=%v, the client sent a declared body of %d bytes", h.line, path, m["request_bytes"], declared))
 		}
 		if c38ValTok(m["response_bytes"]) != fmt.Sprintf("i%d", respLen) {
-			c.Oracle("bytes-mismatch", fmt.Sprintf("%s %s: response_bytes=%v, %d body bytes crossed the wire", h.line, path, m["response_bytes"], respLen))
+			if h.cut {
+				c.Oracle("response-bytes-not-on-wire", fmt.Sprintf("%s %s (connection fault %s): response_bytes=%v, but the peer accepted only %d body bytes before the write failed", h.line, path, h.fault, m["response_bytes"], respLen))
+			} else {
+				c.Oracle("bytes-mismatch", fmt.Sprintf("%s %s: response_bytes=%v, %d body bytes crossed the wire", h.line, path, m["response_bytes"], respLen))
+			}
 		}
 		// describes the call
 		wantMethod := strings.Split(strings.TrimPrefix(path, "/"), "/")[0]
@@ -431,6 +508,12 @@ func (h *c38HTTP) call(l string, f []string) {
 	ctx := context.Background()
 	before := len(h.buf.chunks)
 	switch f[0] {
+	case "fault":
+		h.fault = ""
+		if len(f) == 2 && f[1] != "-" {
+			h.fault = f[1]
+		}
+		return
 	case "un":
 		if len(f) != 3 {
 			c.Out(l, "bad-op")
@@ -502,7 +585,7 @@ func (h *c38HTTP) call(l string, f []string) {
 			st.Close()
 		}
 	}
-	if len(h.buf.chunks) == before {
+	if len(h.buf.chunks) == before && f[0] != "fault" {
 		c.Oracle("call-without-record", fmt.Sprintf("%s produced no access-log record", l))
 	}
 }
@@ -520,6 +603,9 @@ func c38GenHTTP(g *Gen) {
 		lines := []string{fmt.Sprintf("http %d %s %s %s %s %d %d", r.Intn(2), XS(Pick(r, []string{"", "2.0.1"})), auth, c38TraceTok(r), red,
 			Pick(r, []int{1, 1, 0}), Pick(r, []int{0, 0, 0, 1}))}
 		for k, m := 0, r.Range(1, 5); k < m; k++ {
+			if r.Chance(30) {
+				lines = append(lines, "fault "+Pick(r, []string{"w0z", "w0h", "w0l", "w0l", "w1z", "w1h", "w1l", "w2h", "b0", "b1", "b17", "b135", "b136", "b200", "b295", "b296", "b1000", "-", "-"}))
+			}
 			switch r.Intn(3) {
 			case 0:
 				lines = append(lines, fmt.Sprintf("un %s %s", Pick(r, []string{"ok", "ok", "rpc", "go"}), Pick(r, []string{"-", "-", "req-abc", "0123456789abcdef"})))
